@@ -38,9 +38,14 @@ def sweep(sim, case, st, target=None, max_points=400, modes=('kill', 'intr')):
     final = sim.snap()
     yield ('full', n, before, r0, final)
     ks = list(range(n + 1))
+    if case.get('crash_sample'):
+        # a scenario with thousands of ops: a few evenly spaced points plus the points the caller derived from the recorded
+        # history of the undisturbed run (case['crash_extra'], set by the check while it holds the 'full' result)
+        max_points = int(case['crash_sample'])
     if len(ks) > max_points:
         step = len(ks) / float(max_points)
         ks = sorted(set(int(i * step) for i in range(max_points)) | {0, n})
+    ks = sorted(set(ks) | set(k for k in (case.get('crash_extra') or []) if 0 <= k <= n))
     only = case.get('only_crash')      # replay of one pinned crash point
     for mode in modes:
         for k in ks:
@@ -56,3 +61,34 @@ def sweep(sim, case, st, target=None, max_points=400, modes=('kill', 'intr')):
             st.ops += r.nops
             st.crashpoints += 1
             yield (k if mode == 'kill' else ('intr', k), n, before, r, sim.snap())
+
+
+def info_removed_before_payload(trace, pid=None):
+    """history check on the recorded op sequence of an undisturbed purge: crash points (numbers of mutating ops completed) at
+    which the process has already removed info/N.trashinfo although a later successful mutating op of the same run still works
+    on files/N (the payload was not completely gone yet).  Crash states are prefixes of the mutating-op sequence, so a kill at
+    any of these points leaves a payload without its .trashinfo.  Returns [(k, trash dir, N)]."""
+    from sim.vkernel import MUTATING
+    mi = -1
+    info_gone = {}
+    last_payload = {}
+    for ev in trace:
+        if ev[2] not in MUTATING or (pid is not None and ev[1] != pid):
+            continue
+        mi += 1
+        pth = ev[3]
+        if not isinstance(pth, str) or ev[6] is not None:
+            continue
+        if ev[2] in ('unlink', 'remove', 'rename') and '/info/' in pth and pth.endswith('.trashinfo'):
+            T, b = pth.rsplit('/info/', 1)
+            if '/' not in b:
+                info_gone.setdefault((T, b[:-len('.trashinfo')]), mi)
+        elif '/files/' in pth:
+            T, rest = pth.split('/files/', 1)
+            if rest:
+                last_payload[(T, rest.split('/')[0])] = mi
+    out = []
+    for key, i in sorted(info_gone.items(), key=lambda kv: kv[1]):
+        if last_payload.get(key, -1) > i:
+            out.append((i + 1, key[0], key[1]))
+    return out
